@@ -123,6 +123,9 @@ POSITIONS = {
     # on the single-pair mappings that are the entries of an ordered mapping / a list of pairs
     "omap_entry": "pipeline:\n  - !VPool\nvextra: !!omap [%(h)s]\n",
     "pairs_entry": "pipeline:\n  - !VPool {a: !!pairs [{k: 1}, %(h)s]}\n",
+    # under keys that look special to other parts of the configuration language
+    "tag_mapping_args_key": "pipeline:\n  - !VDeco {__args__: %(h)s, a: 1}\n  - !VPool\n",
+    "eager_tag_mapping_args_key": "pipeline:\n  - !VDeco\n  - !VPoolNow {__args__: %(h)s}\n",
     "root_tag_on_sections": "--- %(tag)s\npipeline:\n  - !VPool\nvextra: {a: 1}\n",
     "dup_key_lazy": "pipeline:\n  - !VDeco {a: %(h)s, a: 1}\n  - !VPool\n",
     "dup_key_eager": "pipeline:\n  - !VDeco\n  - !VPoolNow {a: %(h)s, a: 1}\n",
